@@ -479,9 +479,9 @@ func main() {
 			}
 		}
 		rnd := hx.NewRand(ctx.Seed)
-		// 28 chains in the thorough tier: the race detector's own memory grows by about 250 MB per chain and is never
+		// 24 chains in the thorough tier: the race detector's own memory grows by about 250 MB per chain and is never
 		// returned (Go heap stays below 0.5 GB); 40 chains peaked above 9 GB resident
-		chains := ctx.Scale(4, 28)
+		chains := ctx.Scale(4, 24)
 		for i := 0; i < chains; i++ {
 			// epoch lengths 2..8, 3..7 validators; the first four chains fix the corners
 			cfg := crashsim.Config{L: uint32(rnd.Range(2, 8)), N: rnd.Range(3, 7)}
